@@ -30,6 +30,14 @@ Theorem C19_get_abs_reads_reference : forall s a r c, wf s -> rep s a ->
 Proof. exact get_abs_rep. Qed.
 Print Assumptions C19_get_abs_reads_reference.
 
+(** dump(), str() and pretty() render exactly the reference grid (rows x cols cells, row by row) *)
+Theorem C19_dump_str_pretty_read_reference : forall s a, wf s -> rep s a ->
+  dump s = concat (agrid a) /\ to_str s = join [10%N] (agrid a) /\
+  pretty s = (let top := (43 :: repeat 45 (Z.to_nat (aC a)) ++ [43; 10])%N in
+              top ++ join [10%N] (map (fun l => (124 :: l ++ [124])%N) (agrid a)) ++ [10%N] ++ top).
+Proof. intros s a Hwf Hr. split; [now apply dump_rep | split; [now apply to_str_rep | now apply pretty_rep]]. Qed.
+Print Assumptions C19_dump_str_pretty_read_reference.
+
 (** cell-level meaning of the two primitives everything is built from *)
 Theorem C19_fill_region_cells : forall s rs cs re ce ch, wf s ->
   let s' := fill_region s rs cs re ce ch in
